@@ -158,6 +158,46 @@ func (eng *Engine) siteTag(in ssa.Instruction) string {
 
 // callSummary applies the context-free summary of a recursive function.
 func (eng *Engine) callSummary(callee *ssa.Function, in ssa.CallInstruction, args []AV, env *Env) []*Env {
+	// objects the callee may mutate must be explicit in the caller's state, so that the outcome's
+	// effects can be applied to them (keeps the correlation between result and effects)
+	mods0 := eng.eff.trans[callee]
+	for i, p := range callee.Params {
+		if i >= len(args) {
+			break
+		}
+		pt, ok := p.Type().Underlying().(*types.Pointer)
+		if !ok {
+			continue
+		}
+		n, _ := namedStruct(pt.Elem())
+		if n == nil {
+			continue
+		}
+		touched := false
+		for fk := range mods0 {
+			if fk.Struct == n.String() {
+				touched = true
+			}
+		}
+		a := args[i]
+		if !touched || a.Obj != 0 || a.Sym == 0 || env.nilnessOf(a) == isNil {
+			continue
+		}
+		if _, ok := env.tgt[a.Sym]; ok {
+			continue
+		}
+		envs := eng.materialise(env, a, n)
+		if len(envs) == 1 && envs[0] == env {
+			if _, ok := env.tgt[a.Sym]; !ok {
+				continue
+			}
+		}
+		var out []*Env
+		for _, e2 := range envs {
+			out = append(out, eng.callSummary(callee, in, args, e2)...)
+		}
+		return out
+	}
 	// grow the entry state
 	ent := eng.entry[callee]
 	if ent == nil {
@@ -234,8 +274,13 @@ func (eng *Engine) callSummary(callee *ssa.Function, in ssa.CallInstruction, arg
 			for fp, fc := range o.Eff[i] {
 				ft := pathTypeOf(n, fp)
 				nv := eng.fromCF(e, fc, ft, fmt.Sprintf("%s:o%d:e%d%s", key, oi, i, fp))
+				if od := e.objs[obj]; od != nil && !od.Local {
+					od.Dirty = true
+				}
 				if od := e.objs[obj]; od != nil && !od.Summary {
+					nv.Expr = ""
 					e.cells[cellKey{obj, path + fp}] = stripSrc(nv)
+					e.bump(cellKey{obj, path + fp})
 				} else {
 					eng.writeAt(e, obj, path+fp, nv, ft)
 				}
@@ -253,6 +298,7 @@ func (eng *Engine) callSummary(callee *ssa.Function, in ssa.CallInstruction, arg
 				for k := range e.cells {
 					if k.Obj == obj && strings.HasPrefix(k.Path, path+fp) {
 						delete(e.cells, k)
+						e.bump(k)
 					}
 				}
 				_ = ft
@@ -274,6 +320,7 @@ func (eng *Engine) callSummary(callee *ssa.Function, in ssa.CallInstruction, arg
 					}
 					if !isArg {
 						delete(e.cells, k)
+						e.bump(k)
 						if od.Local {
 							// a local object's missing cell reads as zero; make it unknown explicitly
 							ft := pathTypeOf(od.Type, k.Path)
@@ -304,7 +351,9 @@ func (eng *Engine) analyzeRecursive(f *ssa.Function) {
 		args = append(args, eng.fromCF(env, ent[i], p.Type(), fmt.Sprintf("entry:%s:%d", f.String(), i)))
 	}
 	eng.ctx = []string{"rec:" + f.String()}
+	eng.pinned = args // the parameters' facts are read again at every return
 	outs := eng.runFunction(f, env, args)
+	eng.pinned = nil
 	eng.ctx = nil
 	mods := eng.eff.trans[f]
 	var cfs []*OutcomeCF
@@ -344,6 +393,9 @@ func (eng *Engine) analyzeRecursive(f *ssa.Function) {
 				}
 				if obj == 0 {
 					// the object was never materialised on this path but callees may have written it
+					if traceShapes {
+						fmt.Printf("EFF-UNKNOWN %s outcome ret=%v: param %d not materialised at return (shapes=%v)\n", f.Name(), oc.Rets, i, o.Env.shapes[a.Sym])
+					}
 					m[fp] = defaultCF(ft, 1)
 					continue
 				}
@@ -354,6 +406,9 @@ func (eng *Engine) analyzeRecursive(f *ssa.Function) {
 			}
 		}
 		oc.key = outcomeKey(oc)
+		if traceShapes {
+			fmt.Printf("RAW-OUTCOME %s: %s\n", f.Name(), oc.key)
+		}
 		// group by the nil-ness pattern of results and of the described effects; join within a group
 		gk := groupKey(oc)
 		if i, ok := groupIdx[gk]; ok {
@@ -369,6 +424,11 @@ func (eng *Engine) analyzeRecursive(f *ssa.Function) {
 		seen[oc.key] = true
 	}
 	sort.Slice(cfs, func(i, j int) bool { return cfs[i].key < cfs[j].key })
+	// group indices refer to positions: rebuild them after sorting
+	groupIdx = map[string]int{}
+	for i, oc := range cfs {
+		groupIdx[groupKey(oc)] = i
+	}
 	if len(cfs) > 12 {
 		m := cfs[0]
 		for _, o := range cfs[1:] {
@@ -376,6 +436,7 @@ func (eng *Engine) analyzeRecursive(f *ssa.Function) {
 		}
 		m.key = outcomeKey(m)
 		cfs = []*OutcomeCF{m}
+		groupIdx = map[string]int{groupKey(m): 0}
 	}
 	old := eng.summ[f]
 	same := len(old) == len(cfs)
@@ -514,6 +575,9 @@ func (eng *Engine) execBuiltin(b *ssa.Builtin, in ssa.CallInstruction, env *Env)
 		res := numTop()
 		if s, ok := a.single(); ok && len(s) > 0 && s[0] == '"' {
 			res = constAV(constant.MakeInt64(int64(len(constant.StringVal(parseConst(s))))))
+		}
+		if a.Expr != "" && res.Set == nil {
+			res.Expr = "len(" + a.Expr + ")"
 		}
 		if isVal {
 			env.vals[v] = res
